@@ -57,9 +57,9 @@ def run(chk):
         rows = vlib.replay(chk, c, progs, "tam")
         vlib.report_replay(chk, rows, "integrity")
     # (B3) the same on toy79 / toy31723 with the exact verdict (lucky accepts must be the specification's too)
-    tp = [dict(p, expect_v="", expect_p="") for p in progs]
-    vlib.toy_traces(chk, "toy79", "tam", 0, vlib.flags(V=1), "integrity-verdict", progs=tp if not q else tp[::2], name="tam79")
-    vlib.toy_traces(chk, "toy31723", "tam", 0, vlib.flags(V=1), "integrity-verdict", progs=tp if not q else tp[1::2], name="tam31723")
+    # (B3) the same on toy31723: TLC follows both roles' calls and the wire, and requires that whatever the code accepted is the proof the
+    # prover sent (IdealIntegrity over the code's own verdict; an acceptance must repeat under fresh randomness to count)
+    vlib.toy_ideal(chk, "toy31723", progs if not q else progs[::2], "TraceIdealIntegrity", "integrity-toy", "tam31723")
     # every single-bit flip of the encoding, exhaustively
     shapes = [member(2, "good", "flip", chk.seed), two_phase(1, "flip", chk.seed + 1)] if q else \
              [member(n, "good", "flip", chk.seed + n) for n in (0, 1, 2, 3, 5, 8)] + [two_phase(n, "flip", chk.seed + 20 + n) for n in (1, 2, 3)]
@@ -88,7 +88,7 @@ def run(chk):
         rule="TLC checks EveryFieldWeighted / EveryFieldAbsorbed on the verifier model (n <= %d, sampled proof values) and prints one behaviour per "
              "(gate count, field, alteration): add a point, negate, add 1 to a scalar, swap two fields, add / remove / duplicate / reorder rounds; each is "
              "applied to an honest proof (one- and two-phase circuits) and must be rejected (or decode to the identical object) on secq256k1, zorro, "
-             "curve25519; on toy79/toy31723 TLC recomputes the exact verdict; every single-bit flip of %d honest encodings per curve is tried "
+             "curve25519; on toy31723 TLC checks IdealIntegrity over the recorded runs; every single-bit flip of %d honest encodings per curve is tried "
              "exhaustively: decode error, identical object, or rejected by verify. distinct = distinct (curve, program, alteration) + sampled flip positions"
              % (maxn, len(shapes)),
         assumptions=["byte-level changes that decode to the identical proof object (unused flag bits, bytes after an infinity flag) are allowed, as the property states"])
